@@ -46,6 +46,8 @@ fn trace(a: &[String]) {
         "setup" => {
             g_setup(&mut w, &mut rng, 3 * mul);
             g_setup_prefixes(&mut w, if thorough { 5 } else { 3 }, shard, nshards);
+            let mut r2 = Rng::new(seed, "setup-counts", 0);
+            g_setup_counts(&mut w, &mut r2, shard, nshards, if thorough { 1 } else { 1 }, if thorough { 1 } else { 2 });
         }
         "play" => g_play(&mut w, &mut rng, 14 * mul, 60),
         "rep" => {
@@ -68,6 +70,9 @@ fn trace(a: &[String]) {
             if shard == 0 {
                 g_str_diagram(&mut w, &mut rng, 300 * mul);
             } else {
+                if shard == 1 {
+                    g_str_unicode(&mut w);
+                }
                 // other shards add random diagram mutations only
                 let mut r2 = Rng::new(seed, "str-diagram", shard);
                 let alpha_n = 200 * mul;
